@@ -149,6 +149,27 @@ class FakeSocket:
         self._record_tx(bytes(data))
         return len(data)
 
+    def recv_into(self, buf) -> int:
+        """legacy generator path (Connection._reader)"""
+        if self.closed:
+            raise OSError(errno.EBADF, 'closed')
+        if not self.rx:
+            raise BlockingIOError(errno.EAGAIN, 'no data')
+        item = self.rx[0]
+        if item == 'EOF':
+            return 0
+        if isinstance(item, OSError):
+            self.rx.popleft()
+            raise item
+        n = min(len(buf), len(item))
+        buf[:n] = item[:n]
+        if n == len(item):
+            self.rx.popleft()
+        else:
+            self.rx[0] = item[n:]
+        self.consumed += n
+        return n
+
     def _record_tx(self, data: bytes) -> None:
         self.tx.append((self.world.clock.now, self.world.fsm_of(self), data))
         self.world.event('tx', self.index, len(data))
@@ -695,3 +716,59 @@ class Remote:
     def received_types(self):
         msgs, err, rest = self.received()
         return [t for t, _ in msgs]
+
+
+# ------------------------------------------------------------------------------------------------
+# light variant: virtual loop + sockets only (no reactor) for component-level harnesses
+# ------------------------------------------------------------------------------------------------
+class LoopOnly:
+    """Context manager: a VLoop set as the running loop, tcp helpers rebound, virtual clock."""
+
+    def __init__(self) -> None:
+        self.clock = VClock()
+        self.sockets: list = []
+        self.events: list = []
+        self._saved: list = []
+
+    def event(self, *e) -> None:
+        self.events.append(e)
+
+    def fsm_of(self, sock) -> str:
+        return '?'
+
+    def __enter__(self) -> 'LoopOnly':
+        from exabgp.reactor.network import incoming as inc_mod
+
+        nop = lambda *a, **k: None  # noqa: E731
+        for n in ('asynchronous', 'nagle'):
+            self._saved.append((inc_mod, n, getattr(inc_mod, n)))
+            setattr(inc_mod, n, nop)
+        self.loop = VLoop(self)
+        self.loop._clock_resolution = 1e-6
+        events._set_running_loop(self.loop)
+        return self
+
+    def __exit__(self, *exc) -> None:
+        try:
+            for t in asyncio.all_tasks(self.loop):
+                t.cancel()
+            for _ in range(5):
+                self.loop._run_once()
+        except Exception:
+            pass
+        events._set_running_loop(None)
+        try:
+            self.loop.close()
+        except Exception:
+            pass
+        for obj, name, old in reversed(self._saved):
+            setattr(obj, name, old)
+
+    def run_until_blocked(self, task, max_rounds: int = 1000) -> None:
+        """Run rounds until the task is done or nothing is ready (all waiters parked)."""
+        n = 0
+        while not task.done() and self.loop._ready:
+            self.loop._run_once()
+            n += 1
+            if n > max_rounds:
+                raise core.HarnessError('run_until_blocked: livelock')
